@@ -33,10 +33,19 @@ func runWipe(env *execenv.Env) error {
 		_ = env.Backend.Close()
 		return err
 	}
-	err = env.Backend.LocalConfig().RemoveAll("git-bug")
+	// RemoveAll fails if there is nothing to remove, which is the case as soon as the user
+	// identity was the only thing configured
+	gitBugConfig, err := env.Backend.LocalConfig().ReadAll("git-bug")
 	if err != nil {
 		_ = env.Backend.Close()
 		return err
+	}
+	if len(gitBugConfig) > 0 {
+		err = env.Backend.LocalConfig().RemoveAll("git-bug")
+		if err != nil {
+			_ = env.Backend.Close()
+			return err
+		}
 	}
 
 	storage := env.Backend.LocalStorage()
